@@ -192,15 +192,34 @@ func runC05(c *core.Ctx) {
 		return true
 	}
 	lastDel := false
+	callerBufs := map[uint8][]byte{} // id -> the buffer last accepted for it (lookup only)
 	for k := 0; k < nops; k++ {
 		switch op := t.Weighted(5, 2, 1, 1, 1); op {
 		case 0: // SetExtension
 			id, n := c05ID(t), c05Len(t)
 			val := t.Bytes(n)
+			if len(model) > 0 && t.Chance(1, 8) {
+				// the same content again for a present id (a sender refreshing an element with an unchanged value)
+				e := model[t.Intn(len(model))]
+				id, val, n = e.id, append([]byte{}, e.val...), len(e.val)
+				c.Probe("set-equal-content-again")
+			}
 			preExt, preProf := h.Extension, h.ExtensionProfile
 			var err error
-			if c.Guard("rtp.Header.SetExtension", func() { err = h.SetExtension(id, val) }) {
+			// the library is handed the caller's own buffer (it may keep it: that is the documented aliasing);
+			// the model keeps a private copy
+			callerBuf := append([]byte{}, val...)
+			if c.Guard("rtp.Header.SetExtension", func() { err = h.SetExtension(id, callerBuf) }) {
 				return
+			}
+			if err != nil {
+				core.FillBytes(callerBuf, 0xEEEE) // a refused value is the caller's again
+			} else {
+				if old := callerBufs[id]; old != nil {
+					core.FillBytes(old, 0xEEEE) // the buffer of the value that was just replaced is recycled
+					c.Fault("recycle")
+				}
+				callerBufs[id] = callerBuf
 			}
 			c.Ev("set", uint64(id), uint64(n), b2u(err == nil))
 			c.Logf("SetExtension(%d, %d bytes) -> %v  (Extension=%v profile=%#x)", id, n, err, h.Extension, h.ExtensionProfile)
@@ -245,6 +264,11 @@ func runC05(c *core.Ctx) {
 				}
 				model = append(model[:i:i], model[i+1:]...)
 				lastDel = true
+				if old := callerBufs[id]; old != nil {
+					core.FillBytes(old, 0xEEEE) // a deleted value's buffer is the caller's again
+					delete(callerBufs, id)
+					c.Fault("recycle")
+				}
 			}
 		case 2: // GetExtension of an absent id
 			id := c05ID(t)
